@@ -312,6 +312,48 @@ def _dependency_adds(ctx):
     return out
 
 
+def partial_key_sorts(ctx, fn: FuncInfo):
+    """sort / sorted over an unordered source with a key that looks at one component only: ties keep hash order."""
+    out = []
+    r = ctx.resolver(fn)
+
+    def partial(keyfn) -> bool:
+        if not isinstance(keyfn, ast.Lambda) or len(keyfn.args.args) != 1:
+            return False
+        p = keyfn.args.args[0].arg
+        uses = [n for n in ast.walk(keyfn.body) if isinstance(n, ast.Name) and n.id == p]
+        pm = {id(c): par for par in ast.walk(keyfn.body) for c in ast.iter_child_nodes(par)}
+        if not uses or not all(isinstance(pm.get(id(u)), ast.Subscript) and pm[id(u)].value is u for u in uses):
+            return False
+        idx = {unparse(pm[id(u)].slice) for u in uses}
+        return len(idx) == 1  # one component only; several components are taken as the whole element
+
+    for n in walk_no_nested(fn.node):
+        if isinstance(n, ast.Call):
+            key = next((k.value for k in n.keywords if k.arg == "key"), None)
+            if key is None or not partial(key):
+                continue
+            if call_name(n) == "sorted" and n.args:
+                src = n.args[0]
+            elif isinstance(n.func, ast.Attribute) and n.func.attr == "sort":
+                src = n.func.value
+            else:
+                continue
+            # the sorted collection comes from an unordered source (directly or through list(...))
+            e = src
+            if isinstance(e, ast.Name):
+                vals = [a.value for a in walk_no_nested(fn.node) if isinstance(a, ast.Assign) and any(isinstance(t, ast.Name) and t.id == e.id for t in a.targets)]
+                e = vals[0] if len(vals) == 1 else e
+            u = unordered_source(ctx, fn, e)
+            if u is None and isinstance(e, ast.Call) and call_name(e) in ("list", "tuple") and e.args and isinstance(e.args[0], ast.Name):
+                pname = e.args[0].id
+                if pname in fn.params() and "set" in pname.lower():
+                    u = e.args[0]
+            if u is not None:
+                out.append((n, u))
+    return out
+
+
 def rule_no_unordered_iter(ctx, rep):
     rep.rule(
         "R-NO-UNORDERED-ITER",
@@ -333,6 +375,12 @@ def rule_no_unordered_iter(ctx, rep):
             rep.check("R-NO-UNORDERED-ITER", fn.qname, fn.loc(node), ex is not None, f"{kind}:{st[:40]}",
                       f"order-sensitive {kind} over unordered `{st[:60]}`: the result depends on the hash seed / directory enumeration order",
                       exempt=ex)
+    for fn in ctx.prog.functions.values():
+        for node, src in partial_key_sorts(ctx, fn):
+            n_checked += 1
+            rep.check("R-NO-UNORDERED-ITER", fn.qname, fn.loc(node), False, f"partial-key-sort:{unparse(src)[:30]}",
+                      f"`{unparse(node)[:60]}` sorts an unordered collection with a key that looks at one component only: elements with equal keys "
+                      "keep their hash order (PYTHONHASHSEED leaks into the emitted code)")
     # sub-check that keeps the `list(set_of_dependencies)` exemption honest
     adds = _dependency_adds(ctx)
     for cq, deps in sorted(adds.items()):
